@@ -2383,5 +2383,42 @@ theorem sharedInserts_spec (steps : List (Bool × Nat)) :
     refine ⟨i1, i2, ?_⟩
     rw [i3]
 
+/-! ## 16. the abstraction is injective on invariant matrices; round trips -/
+
+theorem eq_of_toRows_eq (a b : Matrix α) (ha : a.Inv) (hb : b.Inv) (h : a.toRows = b.toRows) :
+    a = b := by
+  rw [eq_ofRows_toRows a ha, eq_ofRows_toRows b hb, ← ncols_toRows a ha, ← ncols_toRows b hb, h]
+
+theorem insertIdx_eraseIdx_self (l : List α) :
+    ∀ (i : Nat) (h : i < l.length), (l.eraseIdx i).insertIdx i l[i] = l := by
+  induction l with
+  | nil => intro i h; simp at h
+  | cons a l ih =>
+    intro i h
+    cases i with
+    | zero => simp
+    | succ i =>
+      simp only [List.eraseIdx_cons_succ, List.insertIdx_succ_cons, List.getElem_cons_succ]
+      rw [ih i (by simpa using h)]
+
+theorem transpose_transpose_toRows (m : Matrix α) (h : m.Inv) :
+    Rows.transpose (Rows.transpose m.toRows) = m.toRows := by
+  obtain ⟨_, hinv, ht⟩ := transpose_spec m h
+  generalize m.transpose.state = t at hinv ht
+  have htr : t.rows = m.columns := by rw [← length_toRows t, ht, length_transpose_toRows m h]
+  have htc : t.columns = m.rows := by
+    rw [← ncols_toRows t hinv, ht]
+    exact ncols_of_rect (rect_transpose_toRows m h)
+      (by rw [length_transpose_toRows m h]; exact h.2.2)
+  rw [← ht]
+  have r1 : Rect m.columns (Rows.transpose t.toRows) := by
+    have := rect_transpose_toRows t hinv; rwa [htr] at this
+  apply rows_ext r1 (rect_toRows m h)
+  · rw [length_transpose_toRows t hinv, htc, length_toRows]
+  · intro i j hi hj
+    rw [length_transpose_toRows t hinv, htc] at hi
+    rw [cell_transpose_toRows t hinv i j (by rw [htc]; exact hi) (by rw [htr]; exact hj),
+      ← cell_toRows t j i, ht, cell_transpose_toRows m h j i hj hi, cell_toRows]
+
 end Matrix
 end EasyMl
